@@ -22,9 +22,15 @@ harness(void)
 	CHECK(nni_id_get(&m, 30) == NULL && nni_id_count(&m) == 5, "and leaves the map unchanged");
 	env_alloc_fail_at = -1;
 	/* memory is available again */
+	/* keys whose home slots are still free (residues 0, 6, 7 of the 8-slot table), then two more: a table whose
+	 * thresholds were already advanced would take the first three without growing and be completely full */
+	static const u64 later[5] = { 16, 22, 23, 40, 41 };
 	int ok = 5;
 	for (int k = 0; k < 5; k++) {
-		int r = nni_id_set(&m, 40 + k, &vals[6 + k]);
+		/* an insert into a completely full open-addressing table probes forever: that is the hang */
+		CHECK(m.id_count < m.id_cap, "the table always keeps a free slot, so the probe loop of the next insert terminates (no hang after an earlier NNG_ENOMEM)");
+		ASSUME(m.id_count < m.id_cap);
+		int r = nni_id_set(&m, later[k], &vals[6 + k]);
 		CHECK(r == 0, "once memory is back, sets succeed again (the map is not left in a state where later calls misbehave)");
 		if (r == 0)
 			ok++;
@@ -35,8 +41,8 @@ harness(void)
 	void *v = nni_id_get(&m, K);
 	if (K >= 9 && K < 14)
 		CHECK(v == &vals[K - 9], "earlier entries are still there");
-	else if (K >= 40 && K < 45)
-		CHECK(v == &vals[6 + (K - 40)], "later entries are there");
+	else if (K == 16 || K == 22 || K == 23 || K == 40 || K == 41)
+		CHECK(v == &vals[6 + (K == 16 ? 0 : K == 22 ? 1 : K == 23 ? 2 : K == 40 ? 3 : 4)], "later entries are there");
 	else
 		CHECK(v == NULL, "no other key is present");
 	nni_id_map_fini(&m);
